@@ -1,5 +1,7 @@
 package deps
 
+import "mltwist/pkg/expr"
+
 // findControlDeps finds control dependencies in the code.
 //
 // Control dependency is a dependency in between an instruction and its
@@ -11,6 +13,25 @@ package deps
 // implies that every instruction in the basic block is dependent on the jump
 // instruction at the block end.
 func findControlDeps(instrs []*instruction) {
+	// An instruction which writes the instruction pointer writes an
+	// absolute address. Even if the address is the one of the following
+	// instruction (i.e. the write is no real jump and it doesn't end the
+	// basic block), the value is correct only at the current position of
+	// the instruction. Consequently such an instruction must keep its
+	// position relative to all other instructions of the block.
+	for i, ins := range instrs {
+		if _, ok := ins.outRegs[expr.IPKey]; !ok {
+			continue
+		}
+
+		for _, prev := range instrs[:i] {
+			addDep(prev, ins)
+		}
+		for _, next := range instrs[i+1:] {
+			addDep(ins, next)
+		}
+	}
+
 	last := instrs[len(instrs)-1]
 
 	// If last instruction is not a jump, the basic block ends there simply
